@@ -252,3 +252,444 @@ Proof.
   intros W. rewrite (leaves_tags s r W), Some_inj_in, filter_In, (hpre_members s r y W).
   unfold hleaf. destruct (kids s y); split; intros [H1 H2]; (split; [exact H1|congruence]).
 Qed.
+
+(* ============================================================================================== *)
+(* 3. positions on the heap; ancestors, descendants, leaves, siblings by position                   *)
+
+(* the node reached from x by following the child indices p *)
+Fixpoint node_at (s : forest) (x : id) (p : pos) : option id :=
+  match p with
+  | [] => Some x
+  | i :: p' => match nth_error (kids s x) i with Some c => node_at s c p' | None => None end
+  end.
+
+Definition onode_at (s : forest) (x : id) (o : option pos) : option id :=
+  match o with Some p => node_at s x p | None => None end.
+
+Theorem subtree_at_heap s : WF s -> forall p r,
+  subtree_at (subtree s r) p = option_map (subtree s) (node_at s r p).
+Proof.
+  intros W. induction p as [|i p IH]; intros r; [reflexivity|].
+  cbn [subtree_at node_at]. rewrite (tkids_subtree s r W), nth_error_map.
+  destruct (nth_error (kids s r) i) as [c|]; cbn [option_map]; [apply IH|reflexivity].
+Qed.
+
+Lemma valid_heap s r p : WF s -> valid (subtree s r) p = true <-> exists y, node_at s r p = Some y.
+Proof.
+  intros W. unfold valid. rewrite (subtree_at_heap s W p r).
+  destruct (node_at s r p) as [y|]; cbn [option_map]; split.
+  - intros _. exists y. reflexivity.
+  - reflexivity.
+  - discriminate.
+  - intros [y H]. discriminate.
+Qed.
+
+Lemma node_at_app s : forall p r q,
+  node_at s r (p ++ q) = match node_at s r p with Some y => node_at s y q | None => None end.
+Proof.
+  induction p as [|i p IH]; intros r q; [reflexivity|].
+  cbn [app node_at]. destruct (nth_error (kids s r) i) as [c|]; [apply IH|reflexivity].
+Qed.
+
+Lemma node_at_single s z j : node_at s z [j] = nth_error (kids s z) j.
+Proof. cbn [node_at]. destruct (nth_error (kids s z) j); reflexivity. Qed.
+
+Lemma node_at_snoc s r q i z : node_at s r q = Some z -> node_at s r (q ++ [i]) = nth_error (kids s z) i.
+Proof. intros H. rewrite node_at_app, H. apply node_at_single. Qed.
+
+Lemma node_at_snoc_inv s r q i y : node_at s r (q ++ [i]) = Some y ->
+  exists z, node_at s r q = Some z /\ nth_error (kids s z) i = Some y.
+Proof.
+  rewrite node_at_app. destruct (node_at s r q) as [z|]; [|discriminate].
+  rewrite node_at_single. intros H. exists z. split; [reflexivity|exact H].
+Qed.
+
+(* the position of a node records its distance from the root of the tree: levels again *)
+Theorem node_at_chain s : WF s -> forall p r y,
+  node_at s r p = Some y -> nth_error (y :: ancestors s y) (length p) = Some r.
+Proof.
+  intros W. induction p as [|i p IH]; intros r y H.
+  - cbn in H. injection H as ->. reflexivity.
+  - cbn [node_at] in H. destruct (nth_error (kids s r) i) as [c|] eqn:E; [|discriminate].
+    cbn [length]. fold (chain s y). rewrite (chain_nth_S s W). unfold chain. rewrite (IH c y H).
+    apply (wf_link s W). apply nth_error_In in E. exact E.
+Qed.
+
+Theorem node_at_depth s p r y : WF s -> node_at s r p = Some y -> depth s y = depth s r + length p.
+Proof. intros W H. apply (chain_nth_depth s W). apply (node_at_chain s W p r y H). Qed.
+
+Lemma depth_of_root s r : WF s -> par s r = None -> depth s r = 1.
+Proof. intros [_ _ Hb _] E. unfold depth. rewrite (ancestors_root s Hb r E). reflexivity. Qed.
+
+(* Algo/Derived.v: depth of the node at position p of a whole tree *)
+Theorem node_depth_heap s p r y : WF s -> par s r = None -> node_at s r p = Some y ->
+  node_depth p = depth s y.
+Proof.
+  intros W Hr H. rewrite node_depth_eq, (node_at_depth s p r y W H), (depth_of_root s r W Hr). lia.
+Qed.
+
+Lemma node_ancestors_snoc q i : node_ancestors (q ++ [i]) = q :: node_ancestors q.
+Proof.
+  unfold node_ancestors. rewrite app_length. cbn [length]. replace (length q + 1) with (S (length q)) by lia.
+  change (ancestors_f (S (S (length q))) (q ++ [i]))
+    with (match node_parent (q ++ [i]) with None => [] | Some q' => q' :: ancestors_f (S (length q)) q' end).
+  rewrite node_parent_app. reflexivity.
+Qed.
+
+(* Algo/Derived.v: the ancestors of the node at position p are the heap's parent walk *)
+Theorem node_ancestors_heap s r : WF s -> par s r = None -> forall p y, node_at s r p = Some y ->
+  map (node_at s r) (node_ancestors p) = map Some (ancestors s y).
+Proof.
+  intros W Hr. pose proof W as [_ _ Hb _].
+  induction p as [|i q IH] using rev_ind; intros y H.
+  - cbn in H. injection H as <-. rewrite (ancestors_root s Hb r Hr). reflexivity.
+  - destruct (node_at_snoc_inv s r q i y H) as [z [Hq Hi]].
+    assert (Ep : par s y = Some z) by (apply (wf_link s W); apply nth_error_In in Hi; exact Hi).
+    rewrite node_ancestors_snoc, (WF_ancestors_unfold s y z W Ep). cbn [map].
+    rewrite Hq, (IH z Hq). reflexivity.
+Qed.
+
+(* all positions, in pre-order, are the members in pre-order *)
+Theorem positions_heap s : WF s -> forall r,
+  map (node_at s r) (positions (subtree s r)) = map Some (hpre s r).
+Proof.
+  intros W. apply (kids_ind s W). intros r IH.
+  rewrite (hpre_unfold s r W). rewrite (subtree_unfold s r W) at 1. rewrite positions_eq.
+  cbn [map node_at]. f_equal.
+  assert (G : forall l o, (forall j c, nth_error l j = Some c -> nth_error (kids s r) (o + j) = Some c) ->
+              map (node_at s r) (pos_go o (map (subtree s) l)) = map Some (flat_map (hpre s) l)).
+  { induction l as [|c l IHl]; intros o Hn; [reflexivity|].
+    cbn [map pos_go flat_map]. rewrite !map_app. f_equal.
+    - assert (Ec : nth_error (kids s r) o = Some c) by (rewrite <- (Nat.add_0_r o); apply Hn; reflexivity).
+      rewrite map_map. rewrite <- (IH c) by (apply nth_error_In in Ec; exact Ec).
+      apply map_ext. intros q. cbn [node_at]. rewrite Ec. reflexivity.
+    - apply IHl. intros j c' Hj. replace (S o + j) with (o + S j) by lia. apply Hn. exact Hj. }
+  apply G. intros j c Hj. exact Hj.
+Qed.
+
+Lemma map_filter_through {A B} (f : A -> option B) (F : A -> bool) (G : B -> bool) :
+  forall L M, map f L = map Some M -> (forall q z, In q L -> f q = Some z -> F q = G z) ->
+  map f (filter F L) = map Some (filter G M).
+Proof.
+  induction L as [|q L IH]; intros [|z M] E HF; try discriminate; [reflexivity|].
+  cbn [map] in E. injection E as Eq EL. cbn [filter].
+  rewrite (HF q z (or_introl eq_refl) Eq).
+  assert (R : map f (filter F L) = map Some (filter G M)).
+  { apply IH; [exact EL|]. intros q' z' Hq'. apply HF. right. exact Hq'. }
+  destruct (G z); cbn [map]; rewrite R, ?Eq; reflexivity.
+Qed.
+
+Lemma map_tl {A B} (f : A -> B) l : map f (tl l) = tl (map f l).
+Proof. destruct l; reflexivity. Qed.
+
+Lemma map_node_at_app s r p y L : node_at s r p = Some y ->
+  map (node_at s r) (map (app p) L) = map (node_at s y) L.
+Proof. intros H. rewrite map_map. apply map_ext. intros q. rewrite node_at_app, H. reflexivity. Qed.
+
+(* Algo/Derived.v: descendants / leaves of the node at position p = the heap's, in the same order *)
+Theorem node_descendants_heap s r p y : WF s -> node_at s r p = Some y ->
+  map (node_at s r) (node_descendants (subtree s r) p) = map Some (tl (hpre s y)).
+Proof.
+  intros W H.
+  assert (Hs : subtree_at (subtree s r) p = Some (subtree s y)) by (rewrite (subtree_at_heap s W p r), H; reflexivity).
+  rewrite (node_descendants_eq _ p _ Hs), (map_node_at_app s r p y _ H), !map_tl.
+  rewrite (positions_heap s W y). reflexivity.
+Qed.
+
+Theorem node_leaves_heap s r p y : WF s -> node_at s r p = Some y ->
+  map (node_at s r) (node_leaves (subtree s r) p) = map Some (filter (hleaf s) (hpre s y)).
+Proof.
+  intros W H.
+  assert (Hs : subtree_at (subtree s r) p = Some (subtree s y)) by (rewrite (subtree_at_heap s W p r), H; reflexivity).
+  rewrite (node_leaves_eq _ p _ Hs), (map_node_at_app s r p y _ H).
+  apply map_filter_through; [apply positions_heap; exact W|].
+  intros q z _ Hq. unfold sub_or. rewrite (subtree_at_heap s W q y), Hq. cbn [option_map].
+  unfold sub_is_leaf, hleaf. rewrite (tkids_subtree s z W). destruct (kids s z); reflexivity.
+Qed.
+
+Theorem node_is_leaf_heap s r p y : WF s -> node_at s r p = Some y ->
+  node_is_leaf (subtree s r) p = hleaf s y.
+Proof.
+  intros W H.
+  assert (Hs : subtree_at (subtree s r) p = Some (subtree s y)) by (rewrite (subtree_at_heap s W p r), H; reflexivity).
+  rewrite (node_is_leaf_eq _ p _ Hs). unfold sub_is_leaf, hleaf. rewrite (tkids_subtree s y W).
+  destruct (kids s y); reflexivity.
+Qed.
+
+(* ---- siblings ---- *)
+
+(* basenode.py `siblings`, `left_sibling`, `right_sibling` read on the heap *)
+Definition hsiblings (s : forest) (y : id) : list id :=
+  match par s y with
+  | None => []
+  | Some q => filter (fun c => negb (Nat.eqb c y)) (kids s q)
+  end.
+
+Definition hleft (s : forest) (y : id) : option id :=
+  match par s y with
+  | None => None
+  | Some q => let i := index_of y (kids s q) in
+              if Nat.eqb i 0 then None else nth_error (kids s q) (i - 1)
+  end.
+
+Definition hright (s : forest) (y : id) : option id :=
+  match par s y with
+  | None => None
+  | Some q => let i := index_of y (kids s q) in
+              if Nat.ltb (i + 1) (length (kids s q)) then nth_error (kids s q) (i + 1) else None
+  end.
+
+Lemma hsiblings_remove1 s y q : WF s -> par s y = Some q -> hsiblings s y = remove1 y (kids s q).
+Proof.
+  intros W E. unfold hsiblings. rewrite E. symmetry. apply remove1_filter. apply (wf_nodup s W).
+Qed.
+
+Lemma index_of_nth : forall l i y, NoDup l -> nth_error l i = Some y -> index_of y l = i.
+Proof.
+  induction l as [|x l IH]; intros i y Hnd H; [destruct i; discriminate|].
+  inversion Hnd as [|? ? Hx Hl]; subst. destruct i as [|i]; cbn [nth_error index_of] in *.
+  - injection H as ->. rewrite Nat.eqb_refl. reflexivity.
+  - destruct (Nat.eqb_spec y x) as [->|Hne]; [exfalso; apply Hx; apply nth_error_In in H; exact H|].
+    f_equal. apply IH; assumption.
+Qed.
+
+Lemma map_nth_filter {A} (g : A -> bool) : forall (l : list A) (f : nat -> bool),
+  (forall j c, nth_error l j = Some c -> f j = g c) ->
+  map (nth_error l) (filter f (seq 0 (length l))) = map Some (filter g l).
+Proof.
+  induction l as [|x l IH]; intros f Hf; [reflexivity|].
+  cbn [length seq filter]. rewrite (Hf 0 x eq_refl).
+  assert (R : map (nth_error (x :: l)) (filter f (seq 1 (length l))) = map Some (filter g l)).
+  { rewrite <- seq_shift, filter_map_swap, map_map. cbn [nth_error].
+    apply (IH (fun j => f (S j))). intros j c Hj. apply (Hf (S j) c). exact Hj. }
+  destruct (g x); cbn [map nth_error]; rewrite R; reflexivity.
+Qed.
+
+Lemma node_arity_heap s r q z : WF s -> node_at s r q = Some z ->
+  node_arity (subtree s r) q = length (kids s z).
+Proof.
+  intros W H. unfold node_arity. rewrite (subtree_at_heap s W q r), H. cbn [option_map].
+  rewrite (tkids_subtree s z W). apply map_length.
+Qed.
+
+(* (3) the siblings of the i-th child y of the node z at position q *)
+Theorem node_siblings_child s r q i z y : WF s ->
+  node_at s r q = Some z -> nth_error (kids s z) i = Some y ->
+  par s y = Some z
+  /\ map (node_at s r) (node_siblings (subtree s r) (q ++ [i])) = map Some (hsiblings s y)
+  /\ hsiblings s y = remove1 y (kids s z)
+  /\ onode_at s r (node_left_sibling (subtree s r) (q ++ [i])) = hleft s y
+  /\ onode_at s r (node_right_sibling (subtree s r) (q ++ [i])) = hright s y
+  /\ hleft s y = match i with 0 => None | S j => nth_error (kids s z) j end
+  /\ hright s y = nth_error (kids s z) (S i).
+Proof.
+  intros W Hq Hi.
+  assert (Ep : par s y = Some z) by (apply (wf_link s W); apply nth_error_In in Hi; exact Hi).
+  assert (Hnd : NoDup (kids s z)) by apply (wf_nodup s W).
+  assert (Hix : index_of y (kids s z) = i) by (apply index_of_nth; assumption).
+  assert (Hlt : i < length (kids s z)) by (apply nth_error_Some; congruence).
+  assert (Hv : valid (subtree s r) (q ++ [i]) = true).
+  { apply (valid_heap s r (q ++ [i]) W). exists y. rewrite (node_at_snoc s r q i z Hq). exact Hi. }
+  assert (HL : hleft s y = match i with 0 => None | S j => nth_error (kids s z) j end).
+  { unfold hleft. rewrite Ep. cbn zeta. rewrite Hix. destruct i as [|j]; [reflexivity|].
+    cbn [Nat.eqb]. replace (S j - 1) with j by lia. reflexivity. }
+  assert (HR : hright s y = nth_error (kids s z) (S i)).
+  { unfold hright. rewrite Ep. cbn zeta. rewrite Hix. replace (i + 1) with (S i) by lia.
+    destruct (Nat.ltb (S i) (length (kids s z))) eqn:E; [reflexivity|].
+    apply Nat.ltb_ge in E. symmetry. apply nth_error_None. exact E. }
+  split; [exact Ep|]. split; [|split; [apply hsiblings_remove1; assumption|split; [|split; [|split; [exact HL|exact HR]]]]].
+  - rewrite node_siblings_eq, (node_arity_heap s r q z W Hq). unfold child_of. rewrite map_map.
+    rewrite (map_ext (fun j => node_at s r (q ++ [j])) (nth_error (kids s z)))
+      by (intros j; apply node_at_snoc; exact Hq).
+    unfold hsiblings. rewrite Ep. apply map_nth_filter.
+    intros j c Hj. f_equal. destruct (Nat.eqb_spec j i) as [->|Hne].
+    + rewrite Hi in Hj. injection Hj as ->. symmetry. apply Nat.eqb_refl.
+    + symmetry. apply Nat.eqb_neq. intros ->. apply Hne.
+      apply (proj1 (NoDup_nth_error (kids s z)) Hnd); [apply nth_error_Some; congruence|congruence].
+  - rewrite (node_left_sibling_eq _ q i Hv), HL. destruct i as [|j]; [reflexivity|].
+    cbn [onode_at]. apply node_at_snoc. exact Hq.
+  - rewrite (node_right_sibling_eq _ q i Hv), HR.
+    destruct (valid (subtree s r) (q ++ [S i])) eqn:V; cbn [onode_at].
+    + apply node_at_snoc. exact Hq.
+    + destruct (nth_error (kids s z) (S i)) as [c|] eqn:E; [|reflexivity].
+      assert (V' : valid (subtree s r) (q ++ [S i]) = true)
+        by (apply (valid_heap s r _ W); exists c; rewrite (node_at_snoc s r q (S i) z Hq); exact E).
+      congruence.
+Qed.
+
+(* the same for any node of a whole tree (r without parent), addressed by its position *)
+Theorem node_siblings_heap s r p y : WF s -> par s r = None -> node_at s r p = Some y ->
+  map (node_at s r) (node_siblings (subtree s r) p) = map Some (hsiblings s y)
+  /\ onode_at s r (node_left_sibling (subtree s r) p) = hleft s y
+  /\ onode_at s r (node_right_sibling (subtree s r) p) = hright s y.
+Proof.
+  intros W Hr H. induction p as [|i0 p0 _] using rev_ind.
+  - cbn in H. injection H as <-. unfold hsiblings, hleft, hright. rewrite Hr. repeat split.
+  - destruct (node_at_snoc_inv s r p0 i0 y H) as [z [Hq Hi]].
+    destruct (node_siblings_child s r p0 i0 z y W Hq Hi) as [_ [H1 [_ [H2 [H3 _]]]]].
+    split; [exact H1|]. split; [exact H2|exact H3].
+Qed.
+
+(* ============================================================================================== *)
+(* 4. root                                                                                          *)
+
+Lemma chain_same_root s : WF s -> forall k y r, nth_error (chain s y) k = Some r -> root s r = root s y.
+Proof.
+  intros W. induction k as [|k IH]; intros y r H; rewrite (chain_unfold s y W) in H.
+  - cbn [nth_error] in H. injection H as ->. reflexivity.
+  - cbn [nth_error] in H. destruct (par s y) as [p|] eqn:E; [|destruct k; discriminate].
+    rewrite (IH p r H). symmetry. apply root_parent; assumption.
+Qed.
+
+Lemma last_self_or_in {A} (d : A) : forall l, last l d = d \/ In (last l d) l.
+Proof.
+  induction l as [|x l IH]; [left; reflexivity|]. right.
+  destruct l as [|z l]; [left; reflexivity|].
+  change (last (x :: z :: l) d) with (last (z :: l) d).
+  destruct IH as [E|Hin]; [|right; exact Hin].
+  right. rewrite (last_nonempty_default z d z l). 
+  clear E. revert z. induction l as [|w l IHl]; intros z; [left; reflexivity|].
+  change (last (z :: w :: l) z) with (last (w :: l) z). right.
+  rewrite (last_nonempty_default w z w l). apply IHl.
+Qed.
+
+(* (4) the root of y is the element of y's chain that has no parent *)
+Theorem root_iff s y r : WF s ->
+  r = root s y <-> (y = r \/ In r (ancestors s y)) /\ par s r = None.
+Proof.
+  intros W. split.
+  - intros ->. destruct (root_spec s y W) as [E Hp]. split; [|exact Hp]. rewrite E.
+    destruct (last_self_or_in y (ancestors s y)) as [H|H]; [left; symmetry; exact H|right; exact H].
+  - intros [Hm Hp]. apply chain_In_nth in Hm. destruct Hm as [k Hk].
+    rewrite <- (chain_same_root s W k y r Hk). symmetry. apply root_root. exact Hp.
+Qed.
+
+(* every node lies in the tree below exactly one parentless node: its root *)
+Theorem one_tree_per_node s y r : WF s ->
+  (par s r = None /\ In (Some y) (tags (subtree s r))) <-> r = root s y.
+Proof.
+  intros W. rewrite (subtree_members s r y W), (root_iff s y r W). tauto.
+Qed.
+
+Theorem root_tree_exists_unique s y : WF s ->
+  exists! r, par s r = None /\ In (Some y) (tags (subtree s r)).
+Proof.
+  intros W. exists (root s y). split.
+  - apply (one_tree_per_node s y (root s y) W). reflexivity.
+  - intros r H. symmetry. apply (one_tree_per_node s y r W). exact H.
+Qed.
+
+(* Algo/Derived.v: root / is_root of the node at position p of a whole tree *)
+Theorem node_root_heap s r p y : WF s -> par s r = None -> node_at s r p = Some y ->
+  node_at s r (node_root p) = Some (root s y)
+  /\ (node_is_root p = true <-> par s y = None).
+Proof.
+  intros W Hr H. split.
+  - rewrite node_root_eq. cbn [node_at]. f_equal. apply (root_iff s y r W). split; [|exact Hr].
+    apply chain_In_nth. exists (length p). apply (node_at_chain s W p r y H).
+  - rewrite node_is_root_iff. split.
+    + intros ->. cbn in H. injection H as <-. exact Hr.
+    + intros Hy. induction p as [|i q _] using rev_ind; [reflexivity|]. exfalso.
+      destruct (node_at_snoc_inv s r q i y H) as [z [_ Hi]].
+      apply nth_error_In in Hi. apply (wf_link s W) in Hi. congruence.
+Qed.
+
+(* ============================================================================================== *)
+(* 5. height                                                                                        *)
+
+Lemma level_nil_height : forall k t, level k t = [] <-> height t <= k.
+Proof.
+  induction k as [|k IH]; intros [g n a ks].
+  - rewrite height_unfold. cbn [level]. split; [discriminate|lia].
+  - rewrite height_unfold. cbn [level tkids].
+    induction ks as [|c ks IHks]; [cbn; split; [lia|reflexivity]|].
+    cbn [flat_map fmax fold_right]. fold (fmax height ks).
+    split.
+    + intros H. apply app_eq_nil in H. destruct H as [H1 H2]. apply IH in H1. apply IHks in H2. lia.
+    + intros H. assert (H1 : height c <= k) by lia. assert (H2 : S (fmax height ks) <= S k) by lia.
+      apply IH in H1. apply IHks in H2. rewrite H1, H2. reflexivity.
+Qed.
+
+Lemma height_pos t : 1 <= height t.
+Proof. destruct t. rewrite height_unfold. lia. Qed.
+
+Theorem height_bounds_members s r y : WF s -> In y (hpre s r) ->
+  depth s r <= depth s y /\ depth s y < depth s r + height (subtree s r).
+Proof.
+  intros W H. apply (hpre_members s r y W) in H. apply chain_In_nth in H. destruct H as [k Hk].
+  pose proof (chain_nth_depth s W k y r Hk) as Hd.
+  assert (Hl : In y (hlevel s k r)) by (apply (hlevel_chain s W); exact Hk).
+  assert (Hh : ~ height (subtree s r) <= k).
+  { intros Hle. apply level_nil_height in Hle. rewrite (level_subtree s W) in Hle.
+    apply map_eq_nil in Hle. rewrite Hle in Hl. contradiction. }
+  lia.
+Qed.
+
+Theorem height_attained_by_member s r : WF s ->
+  exists y, In y (hpre s r) /\ depth s y + 1 = depth s r + height (subtree s r).
+Proof.
+  intros W. pose proof (height_pos (subtree s r)) as Hp.
+  assert (Hh : ~ height (subtree s r) <= height (subtree s r) - 1) by lia.
+  rewrite <- level_nil_height, (level_subtree s W) in Hh.
+  destruct (hlevel s (height (subtree s r) - 1) r) as [|y l] eqn:E; [exfalso; apply Hh; reflexivity|].
+  assert (Hl : In y (hlevel s (height (subtree s r) - 1) r)) by (rewrite E; left; reflexivity).
+  exists y. split.
+  - apply (hpre_members s r y W). apply (hlevel_in_members s _ r y W Hl).
+  - apply (hlevel_chain s W) in Hl. pose proof (chain_nth_depth s W _ y r Hl). lia.
+Qed.
+
+(* (5) height = 1 + the largest depth difference between a member and r *)
+Theorem height_heap s r : WF s ->
+  height (subtree s r) = S (list_max (map (fun y => depth s y - depth s r) (hpre s r))).
+Proof.
+  intros W. set (l := map (fun y => depth s y - depth s r) (hpre s r)).
+  assert (Hle : list_max l <= height (subtree s r) - 1).
+  { apply list_max_le. apply Forall_forall. intros d Hd. unfold l in Hd. apply in_map_iff in Hd.
+    destruct Hd as [y [<- Hy]]. pose proof (height_bounds_members s r y W Hy). lia. }
+  assert (Hge : height (subtree s r) - 1 <= list_max l).
+  { destruct (height_attained_by_member s r W) as [y [Hy Hd]].
+    assert (Hin : In (depth s y - depth s r) l) by (unfold l; apply (in_map (fun y0 => depth s y0 - depth s r)); exact Hy).
+    pose proof (proj1 (list_max_le l (list_max l)) (le_n _)) as HF.
+    rewrite Forall_forall in HF. specialize (HF _ Hin). lia. }
+  pose proof (height_pos (subtree s r)). lia.
+Qed.
+
+Theorem level_empty_iff s r k : WF s -> hlevel s k r = [] <-> height (subtree s r) <= k.
+Proof.
+  intros W. rewrite <- level_nil_height, (level_subtree s W). split.
+  - intros ->. reflexivity.
+  - apply map_eq_nil.
+Qed.
+
+Lemma map_through {A B C} (f : A -> option B) (F : A -> C) (G : B -> C) :
+  forall L M, map f L = map Some M -> (forall q z, In q L -> f q = Some z -> F q = G z) ->
+  map F L = map G M.
+Proof.
+  induction L as [|q L IH]; intros [|z M] E HF; try discriminate; [reflexivity|].
+  cbn [map] in E. injection E as Eq EL. cbn [map]. f_equal.
+  - apply HF; [left; reflexivity|exact Eq].
+  - apply IH; [exact EL|]. intros q' z' Hq'. apply HF. right. exact Hq'.
+Qed.
+
+(* Algo/Derived.v: max_depth, asked of any node of a whole tree, is the largest depth of a member
+   of the tree, and equals the height of the tree *)
+Theorem node_max_depth_heap s r p : WF s -> par s r = None ->
+  node_max_depth (subtree s r) p = list_max (map (depth s) (hpre s r))
+  /\ node_max_depth (subtree s r) p = height (subtree s r).
+Proof.
+  intros W Hr. rewrite node_max_depth_eq. unfold spec_max_depth. split.
+  - f_equal. apply (map_through (node_at s r)); [apply positions_heap; exact W|].
+    intros q z _ Hq. rewrite (node_at_depth s q r z W Hq), (depth_of_root s r W Hr). reflexivity.
+  - set (t := subtree s r). apply Nat.le_antisymm.
+    + apply list_max_le. apply Forall_forall. intros d Hd. apply in_map_iff in Hd.
+      destruct Hd as [q [<- Hq]]. apply height_upper. exact Hq.
+    + destruct (height_attained t) as [q [Hq <-]].
+      pose proof (proj1 (list_max_le (map (fun a => S (length a)) (positions t)) _) (le_n _)) as HF.
+      rewrite Forall_forall in HF. apply HF. apply in_map_iff. exists q. split; [reflexivity|exact Hq].
+Qed.
+
+(* ============================================================================================== *)
+(* 6. reachable states                                                                              *)
+
+Lemma reachable_WF cfg n names seps ops : WF (run cfg (init n names seps) ops).
+Proof. apply run_WF, WF_init. Qed.
